@@ -145,20 +145,27 @@ pub struct Space {
     pub trees: Vec<T>,
     /// family W ("wide"): leaf kinds {Mem1, Feed1}, arity <= 5, call nesting <= 2
     pub wide: Vec<T>,
+    /// family D ("deep"): leaf kinds {Mem1, Feed1, Delay1}, arity <= 2, call nesting <= 5 (chains of calls,
+    /// as produced by a stateful function reached through several levels of wrappers)
+    pub deep: Vec<T>,
 }
 impl Space {
     pub fn n_pairs(&self) -> u64 {
-        (self.trees.len() * self.trees.len() + self.wide.len() * self.wide.len()) as u64
+        (self.trees.len() * self.trees.len() + self.wide.len() * self.wide.len() + self.deep.len() * self.deep.len()) as u64
     }
     pub fn pair(&self, idx: u64) -> (&T, &T, &'static str) {
         let na = (self.trees.len() * self.trees.len()) as u64;
         if idx < na {
             let n = self.trees.len() as u64;
             (&self.trees[(idx / n) as usize], &self.trees[(idx % n) as usize], "A")
-        } else {
+        } else if idx < na + (self.wide.len() * self.wide.len()) as u64 {
             let k = idx - na;
             let n = self.wide.len() as u64;
             (&self.wide[(k / n) as usize], &self.wide[(k % n) as usize], "W")
+        } else {
+            let k = idx - na - (self.wide.len() * self.wide.len()) as u64;
+            let n = self.deep.len() as u64;
+            (&self.deep[(k / n) as usize], &self.deep[(k % n) as usize], "D")
         }
     }
 }
@@ -179,7 +186,12 @@ fn space(tier: Tier) -> &'static Space {
         wide.push(T::Call(vec![]));
         wide.sort();
         wide.dedup();
-        Space { trees, wide }
+        let dl = if tier == Tier::Quick { 2 } else { 3 };
+        let mut deep = gen_calls_with(&[T::Mem(1), T::Feed(1), T::Delay(1)], 2, 4, dl, 5);
+        deep.push(T::Call(vec![]));
+        deep.sort();
+        deep.dedup();
+        Space { trees, wide, deep }
     })
 }
 
@@ -647,10 +659,11 @@ impl Prop for C08 {
         };
         Descr {
             rule: format!(
-                "family A: all ordered pairs (old,new) of the {} state layouts with root FnCall, arity<=3, call nesting<=3, <= {ml} leaves from {{Mem1,Feed1,Feed2,Delay1,Delay2}}, <= {mc} calls; family W (wide): all ordered pairs of the {} layouts with arity<=5, call nesting<=2, <= {wl} leaves from {{Mem1,Feed1}}, <=3 calls; pair index is a bijection per family; non-trivial = old != new. \
+                "family A: all ordered pairs (old,new) of the {} state layouts with root FnCall, arity<=3, call nesting<=3, <= {ml} leaves from {{Mem1,Feed1,Feed2,Delay1,Delay2}}, <= {mc} calls; family W (wide): all ordered pairs of the {} layouts with arity<=5, call nesting<=2, <= {wl} leaves from {{Mem1,Feed1}}, <=3 calls; family D (deep): all ordered pairs of the {} layouts with arity<=2, call nesting<=5, <= 5 calls, few leaves from {{Mem1,Feed1,Delay1}} (chains of wrapper calls); pair index is a bijection per family; non-trivial = old != new. \
                  Clause 2 is evaluated on every pair for which some script of <=3 (family A) / <=4 (family W) subtree deletions/insertions maps old to new; only scripts with the minimal number of edits count (counter edit_script_pairs).",
                 sp.trees.len(),
-                sp.wide.len()
+                sp.wide.len(),
+                sp.deep.len()
             ),
             assumptions: vec![
                 "layouts larger than the bound, leaf sizes other than {1,2}, arity > 3 are not covered".into(),
@@ -676,3 +689,55 @@ impl Prop for C08 {
 
 #[allow(dead_code)]
 fn _unused(_: HashMap<u8, u8>) {}
+
+/// debugging aid: parse the `show()` format back ("[[Feed1],Mem1]")
+pub fn parse_t(s: &str) -> T {
+    fn go(b: &[u8], i: &mut usize) -> T {
+        if b[*i] == b'[' {
+            *i += 1;
+            let mut v = vec![];
+            while b[*i] != b']' {
+                v.push(go(b, i));
+                if b[*i] == b',' {
+                    *i += 1;
+                }
+            }
+            *i += 1;
+            T::Call(v)
+        } else {
+            let st = *i;
+            while *i < b.len() && b[*i].is_ascii_alphabetic() {
+                *i += 1;
+            }
+            let name = std::str::from_utf8(&b[st..*i]).unwrap().to_string();
+            let ns = *i;
+            while *i < b.len() && b[*i].is_ascii_digit() {
+                *i += 1;
+            }
+            let n: u64 = std::str::from_utf8(&b[ns..*i]).unwrap().parse().unwrap();
+            match name.as_str() {
+                "Mem" => T::Mem(n),
+                "Feed" => T::Feed(n),
+                _ => T::Delay(n),
+            }
+        }
+    }
+    go(s.as_bytes(), &mut 0)
+}
+pub fn debug_pair(old: &str, new: &str) {
+    let (o, n) = (parse_t(old), parse_t(new));
+    match run_plan(&o, &n) {
+        Err(m) => println!("panic {m}"),
+        Ok(pv) => {
+            println!("none={} total={} patches={:?} newst={:?}", pv.none, pv.total, pv.patches, pv.newst);
+            let mut fails = vec![];
+            let mut tags = vec![];
+            check_wellformed(&o, &n, &pv, &mut fails);
+            let ns = check_survival(&o, &n, &pv, 3, &mut fails, &mut tags);
+            println!("explaining scripts {ns}; tags {tags:?}");
+            for f in fails {
+                println!("[{}] {}", f.clause, f.detail);
+            }
+        }
+    }
+}
